@@ -19,18 +19,18 @@ def showIter : Option (List (Bytes × Bytes)) → String
 def parseBool (s : String) : Option Bool :=
   if s == "0" then some false else if s == "1" then some true else none
 
-def setAt {α : Type} (l : List α) (i : Nat) (x : α) : List α := l.set i x
-
+/-- state changes go through `State.apply` (the function the C10 theorems are about); the result line
+only reports what the real API reports -/
 def step (s : State) (line : String) : State × String :=
   let bad := (s, "bad-op")
   match words line with
   | ["set", k, v] =>
     match ofHex k, ofHex v with
-    | some k, some v => ({ s with main := (s.handle.write k (.set v)).layers }, "ok")
+    | some k, some v => (s.apply (.set k v), "ok")
     | _, _ => bad
   | ["del", k] =>
     match ofHex k with
-    | some k => ({ s with main := (s.handle.write k .del).layers }, "ok")
+    | some k => (s.apply (.del k), "ok")
     | none => bad
   | ["get", k] =>
     match ofHex k with
@@ -40,44 +40,29 @@ def step (s : State) (line : String) : State × String :=
     match ofHex p, parseBool r with
     | some p, some r => (s, showIter (s.handle.iter p r))
     | _, _ => bad
-  | ["nest"] => ({ s with main := {} :: s.main }, "ok " ++ toString (s.main.length + 1))
-  | ["flush"] =>
-    match flushLayers s.main with
-    | some m => ({ s with main := m }, "ok")
-    | none => bad
-  | ["discard"] =>
-    match s.main with
-    | top :: below :: rest => ({ s with main := { top with ov := [] } :: below :: rest }, "ok")
-    | _ => bad
-  | ["pop"] =>
-    match s.main with
-    | _ :: below :: rest => ({ s with main := below :: rest }, "ok " ++ toString (rest.length + 1))
-    | _ => bad
+  | ["nest"] => (s.apply .nest, "ok " ++ toString (s.main.length + 1))
+  | ["flush"] => if s.main.length ≥ 2 then (s.apply .flush, "ok") else bad
+  | ["discard"] => if s.main.length ≥ 2 then (s.apply .discard, "ok") else bad
+  | ["pop"] => if s.main.length ≥ 2 then (s.apply .pop, "ok " ++ toString (s.main.length - 1)) else bad
   | ["commit"] =>
-    match s.main with
-    | [_] => let s' := s.commit; (s', "ok " ++ toString s'.version)
-    | _ => bad
+    if s.main.length == 1 then let s' := s.apply .commit; (s', "ok " ++ toString s'.version) else bad
   | ["rollback", t] =>
-    match t.toNat?, s.main with
-    | some t, [_] =>
-      match s.rollback t with
-      | some s' => (s', "ok " ++ toString s'.version)
-      | none => (s, "err")
-    | _, _ => bad
-  | ["copy"] => ({ s with copies := s.copies ++ [s.copy] }, "ok " ++ toString s.copies.length)
+    match t.toNat? with
+    | some t =>
+      if s.main.length == 1 then
+        match s.rollback t with
+        | some _ => let s' := s.apply (.rollback t); (s', "ok " ++ toString s'.version)
+        | none => (s, "err")
+      else bad
+    | none => bad
+  | ["copy"] => (s.apply .copy, "ok " ++ toString s.copies.length)
   | ["cset", i, k, v] =>
     match i.toNat?, ofHex k, ofHex v with
-    | some i, some k, some v =>
-      match s.copies[i]? with
-      | some h => ({ s with copies := setAt s.copies i (h.write k (.set v)) }, "ok")
-      | none => bad
+    | some i, some k, some v => if i < s.copies.length then (s.apply (.cset i k v), "ok") else bad
     | _, _, _ => bad
   | ["cdel", i, k] =>
     match i.toNat?, ofHex k with
-    | some i, some k =>
-      match s.copies[i]? with
-      | some h => ({ s with copies := setAt s.copies i (h.write k .del) }, "ok")
-      | none => bad
+    | some i, some k => if i < s.copies.length then (s.apply (.cdel i k), "ok") else bad
     | _, _ => bad
   | ["cget", i, k] =>
     match i.toNat?, ofHex k with
@@ -103,7 +88,7 @@ def step (s : State) (line : String) : State × String :=
     | _, _, _ => bad
   | ["hold", v] =>
     match v.toNat? with
-    | some v => ({ s with held := s.held ++ [s.readOnly v] }, "ok " ++ toString s.held.length)
+    | some v => (s.apply (.hold v), "ok " ++ toString s.held.length)
     | none => bad
   | ["hget", i, k] =>
     match i.toNat?, ofHex k with
